@@ -82,7 +82,7 @@ pub fn gen(r: &mut Rng, thorough: bool, v: &mut Vec<(String, String)>) {
             1 => { let b = roots[deg - 1]; (b - r.range(1, 8) as f64 * 0.5, b) } // a root at the right end
             2 => { let a = r.lattice(8, 1); (a, a) }                             // degenerate init
             3 => (-r.range(1, 6) as f64, r.range(1, 6) as f64),
-            _ => { let a = r.uniform(-6.0, 2.0); (a, a + r.logu(0.1, 10.0)) }
+            _ => { let c = roots[r.below(deg as u64) as usize]; let w = r.logu(0.1, 10.0); let a = c - w * r.unit(); (a, a + w) } // a root strictly inside
         };
         let (mw, mi, mr) = match r.below(4) {
             0 => (1.0e-5, 1.0e-5, r.below(6) as usize),                          // small budgets, tight thresholds
